@@ -1,7 +1,7 @@
 (* pins for C20: statements of the property theorems as of the time of pinning *)
 From Coq Require Import NArith ZArith List Bool Arith.
 From Blue Require Import Gen.Const_Stall Lsm.Model Stall.Select Stall.Known Stall.Proto
-  Stall.ProofsBounds Stall.ProofsAdm Stall.ProofsNext Stall.ProofsTotal Stall.ProofsStall Stall.ProofsRelief Stall.ProofsProto.
+  Stall.ProofsBounds Stall.ProofsAdm Stall.ProofsNext Stall.ProofsTotal Stall.ProofsStall Stall.ProofsRelief Stall.ProofsProto Stall.ProofsMeasure Stall.ProofsProgress.
 Import ListNotations.
 Open Scope N_scope.
 From Blue Require Import Stall.Props_C20.
@@ -21,4 +21,6 @@ Check C20_selector_respects_ongoing : forall o v og out c, sel_wfb v = true -> n
 Check C20_selector_total : forall o v og, sel_wfb v = true -> exists out, next_compaction o v og = Ok out.
 Check C20_compute_bounds_fuel : forall lv fk lk, widen (widen_fuel lv) lv (lower_bound lv fk) (upper_bound lv lk) fk lk <> None.
 Check C20_ingest_keeps_stall : forall o v f, v <> [] -> should_stall_ingest o v = true -> should_stall_ingest o (ingest v f) = true.
+Check C20_compaction_lowers_measure : forall o v og out c outs, sel_wfb v = true -> next_compaction o v og = Ok out -> nc_choice out = Some c -> (ec outs <= in_entries v (cc c))%nat -> (mu (apply_compaction v (cc c) outs) < mu v)%nat.
+Check C20_compaction_runs_are_bounded : forall o n v v', crun o n v v' -> (n + mu v' <= mu v)%nat.
 Check C20_tables_cover_levels : len level_curve_tbl = STALL_NUM_LEVELS /\ len level_factor_tbl = STALL_NUM_LEVELS.
